@@ -52,3 +52,24 @@ Proof.
   - destruct paths; reflexivity.
   - destruct (first_value "symbols-cache" items), (first_value "symbols-tmp" items); reflexivity.
 Qed.
+
+(* ... from the TOKEN VECTOR: what Cli::parse() makes of the rendered command line is the record the supplier is built from *)
+Lemma tokens_to_supplier : forall pid items out, items_effect CLI [] items = Some out ->
+  (group_members_present GROUP out <= 1)%nat -> required_present CLI out = true ->
+  exists acc, parse CLI GROUP (render items) = PParsed acc /\
+    supplier_of (sym_cli_of pid acc) =
+      match map pid (opt_values "symbols-url" items) with
+      | _ :: _ =>
+          HttpSupplier (map pid (opt_values "symbols-path" items) ++ map pid (tl (words items)))%list
+            (map pid (opt_values "symbols-url" items))
+            (match first_value "symbols-cache" items with Some d => GivenDir (pid d) | None => TempDirCache end)
+            (match first_value "symbols-tmp" items with Some d => GivenDir (pid d) | None => TempDir end)
+            (match first_value "symbols-download-timeout-secs" items with Some s => secs_of s | None => 1000%Z end)
+      | [] => match (map pid (opt_values "symbols-path" items) ++ map pid (tl (words items)))%list with
+              | _ :: _ => SimpleSupplier (map pid (opt_values "symbols-path" items) ++ map pid (tl (words items)))%list
+              | [] => NoSupplier end
+      end.
+Proof.
+  intros pid items out H Hg Hr. exists out. split; [exact (manual_reading_is_parsed CLI GROUP items out H Hg Hr)|].
+  exact (argv_supplier pid items out H).
+Qed.
